@@ -8,11 +8,11 @@ WHAT = 'resize() racing submissions never loses, duplicates or strands a task'
 def run(ctx):
     thorough = ctx.tier == 'thorough'
     ctx.check_model(pc.SPEC, 'MCPool.tla', 'MC_q2_c08.cfg', WHAT, label='ring submission followed by a growing resize', workers=6,
-                    vacuity_exempt=VAC, timeout=900)
+                    required=('RbPushRing', 'TpRzDrainRing', 'TpRzStoreNumRings', 'TpRzJoined'), timeout=900)
     sims = [('MC_q2_c03.cfg', 'ring fast path racing a resize 1->2 (simulation)', 45)]
     if thorough:
         ctx.check_model(pc.SPEC, 'MCPool.tla', 'MC_q2_c03.cfg', WHAT, label='ring fast path racing a resize 1->2', workers=12,
-                        vacuity_exempt=VAC, timeout=3000, heap='16g')
+                        required=('RbPushRing', 'TpRzDrainRing', 'TpRzStoreNumRings', 'TpRzJoined'), timeout=3000, heap='16g')
         sims = [('MC_c03.cfg', '3 workers: ring fast path racing resize 3->2 (simulation)', 600),
                 ('MC_c08.cfg', '2 workers: ring fast path racing resize 2->1 (simulation)', 300)]
     for cfg, lab, secs in sims:
